@@ -41,9 +41,12 @@ def reviewedSites : List (String × String) := [
 def rangeSitesOk (sites : List (String × String)) : Bool :=
   sites.all (fun s => safePatterns.contains s.2 || (reviewedSites.map (·.1)).contains s.1)
 
-/-- The order of persistence calls `Blockchain.Commit` must make (events, state tree, then the app-DB records). -/
+/-- The order of persistence calls `Blockchain.Commit` must make (events, state tree, then the app-DB records).
+    Since /repo 861d6db (fix-C10) the app-DB records of a block are collected between `StartBatch` and `WriteBatch`
+    and reach the disk in one atomic tm-db batch. -/
 def expectedCommitCalls : List String :=
-  ["stateDeliver.Check", "eventsDB.CommitEvents", "stateDeliver.Commit", "appDB.SetLastBlockHash", "appDB.SetLastHeight",
-   "appDB.FlushValidators", "appDB.SaveBlocksTime", "appDB.SaveVersions", "appDB.SaveEmission", "appDB.SavePrice", "appDB.WG.Add"]
+  ["stateDeliver.Check", "eventsDB.CommitEvents", "stateDeliver.Commit", "appDB.StartBatch", "appDB.SetLastBlockHash",
+   "appDB.SetLastHeight", "appDB.FlushValidators", "appDB.SaveBlocksTime", "appDB.SaveVersions", "appDB.SaveEmission",
+   "appDB.SavePrice", "appDB.WriteBatch", "appDB.WG.Add"]
 
 end Minter
